@@ -200,3 +200,17 @@ Print Assumptions C20_frozen_accepts_declared.
 Theorem C20_readonly_rejected : forall ro k, In k ro -> rp_setattr ro k = Some ReadOnlyError.
 Proof. exact readonly_rejected. Qed.
 Print Assumptions C20_readonly_rejected.
+
+(* the read-only registry of a problem is the UNION over all registration calls of its class
+   hierarchy (parent __init__, child __init__, ...): a name registered read-only by any of them is
+   rejected on assignment, and every registered name is listed in params *)
+Theorem C20_readonly_union_over_calls : forall calls names k,
+  In (names, true) calls -> In k names ->
+  rp_setattr (fst (rp_register calls)) k = Some ReadOnlyError /\ In k (rp_params calls).
+Proof. exact readonly_union_over_calls. Qed.
+Print Assumptions C20_readonly_union_over_calls.
+
+Theorem C20_registered_listed_in_params : forall calls names b k,
+  In (names, b) calls -> In k names -> In k (rp_params calls).
+Proof. exact registered_listed_in_params. Qed.
+Print Assumptions C20_registered_listed_in_params.
